@@ -5,8 +5,14 @@ use crate::rng::Rng;
 
 pub const SHAPES: &[&str] = &[
     "iid_grid", "random_walk", "monotone_up", "monotone_down", "constant", "zeros_sparse", "sign_alternating",
-    "volatile_then_flat", "step", "sine_noise", "mixed_segments", "two_valued", "iid_uniform", "zero_sum_pairs",
+    "volatile_then_flat", "step", "sine_noise", "mixed_segments", "two_valued", "iid_uniform", "zero_sum_pairs", "periodic",
 ];
+
+/// shapes under which the state of any deterministic windowed computation is periodic after its warm-up
+/// (constant, alternating, a short pattern repeated): nothing that *can* happen remains to happen late
+pub fn is_periodic_shape(shape: u8) -> bool {
+    matches!(shape as usize % SHAPES.len(), 4 | 6 | 14)
+}
 
 pub const SCALES: &[f64] = &[1e-3, 1e-2, 0.1, 0.5, 1.0, 1.0, 1.0, 2.0, 10.0, 100.0, 1e3, 1e4, 1e5, 1e6];
 
@@ -116,6 +122,14 @@ fn unit_shape(r: &mut Rng, shape: u8, len: usize) -> Vec<f64> {
         12 => {
             for _ in 0..len {
                 v.push(r.uniform(-2.0, 2.0));
+            }
+        }
+        14 => {
+            // a short random pattern on the grid, repeated for ever (period 1..48)
+            let p = 1 + r.below(48);
+            let pat: Vec<f64> = (0..p).map(|_| (r.below(17) as f64 - 8.0) * 0.25).collect();
+            for i in 0..len {
+                v.push(pat[i % p]);
             }
         }
         _ => {
